@@ -11,7 +11,7 @@ from vlib import spec as vspec
 PROPERTY = 'C10'
 LEVEL = 'fault_enumeration'
 RULE = ('Fault sequences: the command spec maps token-hash classes of the candidate '
-        'to {sleep forever, spin forever, allocate without bound, die from SIGSEGV, '
+        'to {sleep forever (also with SIGTERM ignored), spin forever, allocate without bound (heap or shared mappings), wrapper with a hanging child, die from SIGSEGV, '
         'die from SIGKILL}, so faults land at pseudo-random places of a real run; '
         '--timeout in {0.3, 0.5}, --memout 200 (always when the allocate class is '
         'present), -j in {1, 3}, all three strategies.  (i) component: checker.execute '
@@ -32,7 +32,9 @@ ASSUMPTIONS = [
     'cross-check match strings are not asserted',
 ]
 
-KINDS = {'s': 'sleep', 't': 'sleep-ignoring-SIGTERM', 'p': 'spin', 'a': 'allocate', 'v': 'sigsegv', 'k': 'sigkill', 'w': 'wrapper-with-hanging-child'}
+# both ways of exhausting --memout end the command the same way (abort)
+OUTCOME = {'m': 'a'}
+KINDS = {'s': 'sleep', 't': 'sleep-ignoring-SIGTERM', 'p': 'spin', 'a': 'allocate', 'm': 'allocate-shared-mappings', 'v': 'sigsegv', 'k': 'sigkill', 'w': 'wrapper-with-hanging-child'}
 
 
 def kill_hanging_children():
@@ -57,9 +59,9 @@ def component(dd, ctx, acc):
     fn = os.path.join(wd, 'cand.smt2')
     with open(fn, 'w') as f:
         f.write('(assert true)\n')
-    for kind in 'stpavkw':
+    for kind in 'stpamvkw':
         for memout in (None, 200):
-            if kind == 'a' and memout is None:
+            if kind in 'am' and memout is None:
                 continue
             sp = dict(pred=['true'], T=[0, 'ok\n', ''], F=[1, '', ''], fault=[1, 1, {'0': kind}])
             spf = vspec.write_spec(sp, os.path.join(wd, f'comp-{kind}.spec'))
@@ -131,7 +133,7 @@ def component(dd, ctx, acc):
                     acc.violation(f'component-runinfo/{KINDS[kind]}', f'timed-out run recorded as {ri!r}', case)
             if kind in 'vk' and (ri.exit is None or ri.exit >= 0):
                 acc.violation(f'component-runinfo/{KINDS[kind]}', f'signal death recorded as {ri!r}', case)
-            if kind == 'a' and ri.exit == 0:
+            if kind in 'am' and ri.exit == 0:
                 acc.violation(f'component-runinfo/{KINDS[kind]}', f'allocating run recorded as {ri!r}', case)
             if kind == 'w':
                 kill_hanging_children()
@@ -180,7 +182,7 @@ def default_limits(dd, ctx, acc):
 def fault_case(draw, force_memout_profile=False):
     c = draw(gen_run.run_case(jobs=(1, 3), formats=('default', ), with_cc=False, with_delay=False,
                               comparisons=False, max_asserts=4, kinds=['monotone', 'mixed', 'hash']))
-    kinds = draw(st.lists(st.sampled_from('stpavkw'), min_size=1, max_size=3, unique=True))
+    kinds = draw(st.lists(st.sampled_from('stpamvkw'), min_size=1, max_size=3, unique=True))
     mod = draw(st.sampled_from([12, 16, 24]))
     th = vspec.token_hash(vspec.tokens_of_text(c['text']))
     # choose a salt under which the original itself is not faulty
@@ -199,19 +201,20 @@ def fault_case(draw, force_memout_profile=False):
         c['opts']['ignore_output'] = True
     c['spec']['fault'] = [salt, mod, classes]
     c['opts']['timeout'] = draw(st.sampled_from([0.3, 0.5]))
-    if 'a' in kinds or draw(st.booleans()):
+    if 'a' in kinds or 'm' in kinds or draw(st.booleans()):
         c['opts']['memout'] = 200
     if force_memout_profile or draw(st.integers(0, 5)) == 0:
         # --memout without --timeout (the default time limit is derived from the
         # golden run); optionally the golden run itself exhausts the memory limit
-        classes = {k: v for k, v in classes.items() if v in 'avk'}
+        classes = {k: v for k, v in classes.items() if v in 'amvk'}
         free2 = [k for k in range(mod) if str(k) not in classes and k != vspec.mix(th, salt) % mod]
-        classes[str(free2[0])] = 'a'
+        ak = draw(st.sampled_from('am'))
+        classes[str(free2[0])] = ak
         c['golden_fault'] = None
         c['opts'].pop('ignore_output', None)
         if force_memout_profile or draw(st.booleans()):
-            classes[str(vspec.mix(th, salt) % mod)] = 'a'
-            c['golden_fault'] = 'a'
+            classes[str(vspec.mix(th, salt) % mod)] = ak
+            c['golden_fault'] = ak
             c['opts']['ignore_output'] = True
         else:
             classes.pop(str(vspec.mix(th, salt) % mod), None)
@@ -263,14 +266,15 @@ def run_fault_case(case, acc, wd):
     if case.get('golden_fault'):
         # the golden run ended abnormally: only candidates that end the same way match
         for e in r.trace:
-            if e['e'] == 'Wb' and faults.get(e['tok']) != case['golden_fault']:
+            if e['e'] == 'Wb' and OUTCOME.get(faults.get(e['tok']), faults.get(e['tok'])) != OUTCOME.get(case['golden_fault'], case['golden_fault']):
                 acc.violation(f'adopted/normal-though-golden-{KINDS[case["golden_fault"]]}',
                               f'the golden run {KINDS[case["golden_fault"]]}s, yet a candidate on which the command '
                               f'{KINDS.get(faults.get(e["tok"]), "ends normally")} was written to the output file '
                               f'(options {case["opts"]})', case)
                 break
     for e in r.trace:
-        if e['e'] == 'Wb' and e['tok'] in faults and faults[e['tok']] != case.get('golden_fault'):
+        if e['e'] == 'Wb' and e['tok'] in faults and \
+                OUTCOME.get(faults[e['tok']], faults[e['tok']]) != OUTCOME.get(case.get('golden_fault'), case.get('golden_fault')):
             acc.violation(f'adopted/{KINDS[faults[e["tok"]]]}',
                           f'a candidate on which the command {KINDS[faults[e["tok"]]]}s was written to the output file', case)
     r.survivors = [x for x in r.survivors if 'sleep 987654' not in x[2]]
